@@ -10,7 +10,7 @@
    A change of a coefficient, an index, a sign, a branch condition or a write kind in either macro changes the generated term
    and breaks one of the two proofs below. *)
 From Coq Require Import List ZArith Bool Reals Lia Lra.
-From GMGP Require Import Scalar ScalarR InterpDefs StencilDefs StencilProofs.
+From GMGP Require Import Scalar ScalarR InterpDefs StencilDefs StencilProofs StencilDefinite.
 From GMGPGen Require Import StencilGen.
 Import ListNotations.
 
@@ -260,4 +260,24 @@ Proof.
   intros nr nth h k rad arr att art det beta dirbc Hnr Hnth Hh Hk HR0 Harr Hatt Hdisc Hbeta Hart0 nodes x Hn Hx.
   rewrite gen_form_eq_form by assumption.
   apply form_nonneg; try assumption. intros p Hp; apply Hn; exact Hp.
+Qed.
+
+(* strict definiteness (StencilDefinite.form_positive_definite) for the generated give kernel *)
+Theorem gen_form_positive_definite :
+  forall (nr nth : Z) (h k rad : Z -> R) (arr att art det : Z -> Z -> R) (beta : Z -> R) (dirbc : bool),
+  (4 <= nr)%Z -> (2 <= nth)%Z ->
+  (forall x : Z, 0 < h x)%R -> (forall x : Z, 0 < k x)%R -> (0 < rad 0%Z)%R ->
+  (forall i j : Z, 0 < arr i j)%R -> (forall i j : Z, 0 < att i j)%R ->
+  (forall i j : Z, art i j ^ 2 < 4 * arr i j * att i j)%R -> (forall i : Z, 0 <= beta i)%R ->
+  (dirbc = false -> forall j : Z, art 0%Z j = 0%R) ->
+  forall (nodes : list (Z * Z)) (x : Z -> Z -> R),
+  (forall p : Z * Z, In p nodes -> (0 <= fst p < nr)%Z /\ (0 <= snd p < nth)%Z) ->
+  (forall i j, (0 <= i < nr)%Z -> (0 <= j < nth)%Z -> In (i, j) nodes) ->
+  vanishes_on_dirichlet nr dirbc x ->
+  (exists i j, (0 <= i < nr)%Z /\ (0 <= j < nth)%Z /\ x i j <> 0%R) ->
+  (0 < gen_form nr nth h k rad arr att art det beta dirbc nodes x x)%R.
+Proof.
+  intros nr nth h k rad arr att art det beta dirbc Hnr Hnth Hh Hk HR0 Harr Hatt Hdisc Hbeta Hart0 nodes x Hn Hall Hx Hne.
+  rewrite gen_form_eq_form by assumption.
+  apply form_positive_definite; try assumption. intros p Hp; apply Hn; exact Hp.
 Qed.
